@@ -232,3 +232,36 @@ fn c10_nb_window_timing() {
     }
     kani::cover!(true, "verif-reached: end");
 }
+
+// ------------------------------------------------------------------------------------------------
+// C12: "disabling ADR restarts the count" -- Device::set_adr of this front-end, from any session
+fn set_adr_post(old: Option<crate::mac::Session>, new: Option<&crate::mac::Session>, old_enabled: bool, now_enabled: bool, arg: bool) {
+    let _ = old_enabled;
+    assert!(now_enabled == arg, "C12 set_adr stores the flag");
+    match (old, new) {
+        (Some(o), Some(n)) => {
+            if !arg { assert!(n.adr_ack_cnt == 0, "C12 disabling ADR restarts the ADR acknowledgement count"); }
+            else { assert!(n.adr_ack_cnt == o.adr_ack_cnt, "C12 enabling ADR leaves the count alone"); }
+            assert!(crate::mac::verif_mac::sessions_equal_but_adr_cnt(&o, n), "set_adr frame: nothing else of the session changes");
+        }
+        (None, None) => {}
+        _ => { assert!(false, "set_adr neither creates nor destroys a session"); }
+    }
+}
+// @verif props=C12 obligation=nb_device::Device::set_adr.contract label=proved-complete tier=quick bound="joined with any session, or not joined"
+#[kani::proof]
+#[kani::unwind(18)]
+fn c12_nb_set_adr() {
+    tape::init();
+    let radio = MockRadio { pkt: tape::arr(), offset: 0, duration: 0, sending: false };
+    let mut d: crate::nb_device::Device<MockRadio, TapeRng, 64, 1> = crate::nb_device::Device::new(region::Configuration::new(region::Region::EU868), radio, TapeRng { draws: 0, free: 0, accept: 0 });
+    if tape::boolean() { d.shared.mac.set_session(crate::mac::verif_mac::any_joined_session()); }
+    d.shared.mac.configuration.adr_enabled = tape::boolean();
+    let old = d.shared.mac.get_session().cloned();
+    let old_enabled = d.get_adr();
+    let arg = tape::boolean();
+    d.set_adr(arg);
+    set_adr_post(old, d.shared.mac.get_session(), old_enabled, d.get_adr(), arg);
+    kani::cover!(d.shared.mac.get_session().is_some() && !arg, "verif-reached: joined, ADR switched off");
+    kani::cover!(d.shared.mac.get_session().is_none(), "verif-reached: not joined");
+}
